@@ -331,6 +331,24 @@ def F19():
         return 'FloatPixelData (7FE0,0008) extracted as meta data by the default extractor'
 
 
+def F20():
+    st = dcmstack.DicomStack()
+    a = _mk_ds(ipp=(0., 0., 0.), inst=1, extra={'AcquisitionTime': '120000.0'})
+    b = _mk_ds(ipp=(0., 0., 1.), inst=2, extra={'AcquisitionTime': '120000.5'})
+    c = _mk_ds(ipp=(0., 0., 2.), inst=3)
+    for ds in (a, b, c):
+        st.add_dcm(ds)
+    out = []
+    for vo in ('LAS', 'LAI', ''):
+        try:
+            st.to_nifti(voxel_order=vo)
+            out.append('ok')
+        except KeyError:
+            out.append('KeyError')
+    if 'KeyError' in out:
+        return 'complete stack, AcquisitionTime missing in one file: to_nifti LAS/LAI/"" -> %s' % out
+
+
 # ---- open findings (recorded in known-findings.txt, not repaired): these report PRESENT on the current tree
 def N1():
     e = DcmMetaExtension.make_empty((2, 2, 2, 1), np.eye(4), None, 2)
@@ -413,13 +431,25 @@ def N9():
         return 'orientation jitter 2**-17 in one file (accepted by add_dcm): per-slice InstanceNumber of volume 1 looked up as %r' % (vals,)
 
 
+def N11():
+    es = []
+    for v in (1, 2, 3):
+        e = DcmMetaExtension.make_empty((2, 2, 1), np.eye(4), None, None)
+        e.get_class_dict(('global', 'const'))['k'] = v
+        es.append(e)
+    try:
+        DcmMetaExtension.from_sequence(es, 2, slice_dim=2)
+    except TypeError:
+        return 'from_sequence(..., dim=2, slice_dim=2) of extensions whose own slice_dim is None -> TypeError'
+
+
 def deepcopy_ext(e):
     from copy import deepcopy
     return deepcopy(e)
 
 
-OPEN = ['N1', 'N2', 'N3', 'N4', 'N6', 'N8', 'N9']
-ALL = ['F19', 'F18', 'F17', 'F16', 'F15', 'F1', 'F2', 'F3', 'F4', 'F5', 'F6', 'F7', 'F8', 'F9', 'F10', 'F11', 'F12', 'F13', 'F14']
+OPEN = ['N1', 'N2', 'N3', 'N4', 'N6', 'N8', 'N9', 'N11']
+ALL = ['F20', 'F19', 'F18', 'F17', 'F16', 'F15', 'F1', 'F2', 'F3', 'F4', 'F5', 'F6', 'F7', 'F8', 'F9', 'F10', 'F11', 'F12', 'F13', 'F14']
 
 if __name__ == '__main__':
     which = sys.argv[1:] or ALL
